@@ -27,7 +27,22 @@ type vcCase struct {
 		Enc  VB `json:"enc"`
 		Hash VB `json:"hash"`
 		Item VB `json:"item"`
+		// bodycount: expected bytes as head + unit repeated n times + tail
+		Scale vcDesc `json:"scale"`
 	} `json:"res"`
+}
+
+type vcDesc struct {
+	Head VB  `json:"head"`
+	Unit VB  `json:"unit"`
+	N    int `json:"n"`
+	Tail VB  `json:"tail"`
+}
+
+func (d vcDesc) Bytes() []byte {
+	out := append([]byte(nil), d.Head.Bytes()...)
+	out = append(out, bytes.Repeat(d.Unit.Bytes(), d.N)...)
+	return append(out, d.Tail.Bytes()...)
 }
 
 func vcList(raw json.RawMessage) []json.RawMessage {
@@ -410,6 +425,74 @@ func TestVerifChainTypes(t *testing.T) {
 						if err := scale.Unmarshal(exp, &back); err != nil || back != sv {
 							fail("Unmarshal(GrandpaSignedVote)", fmt.Sprint(sv), fmt.Sprint(back, err), "C14/signedvote/decode")
 						}
+					}
+				case "bodycount":
+					// bodies whose extrinsic COUNT sits on a compact-mode boundary (0, 1, 63, 64, 65, 16383, 16384, 16385)
+					var v struct{ N, Fill int }
+					if err := json.Unmarshal(c.O.V, &v); err != nil {
+						panic("VERIF-INFRA bodycount value")
+					}
+					res.Case("bodycount", string(c.O.V))
+					want := c.Res.Scale.Bytes()
+					sig := fmt.Sprintf("C14/bodycount/%d", v.N)
+					exts := make([]Extrinsic, v.N)
+					strs := make([]string, v.N)
+					for i := range exts {
+						exts[i] = Extrinsic{byte(v.Fill)}
+						strs[i] = fmt.Sprintf("0x%02x", v.Fill)
+					}
+					same := func(b *Body) bool {
+						if b == nil || len(*b) != v.N {
+							return false
+						}
+						for _, e := range *b {
+							if len(e) != 1 || e[0] != byte(v.Fill) {
+								return false
+							}
+						}
+						return true
+					}
+					show := func(b *Body, err error) string {
+						if err != nil {
+							return "error: " + err.Error()
+						}
+						if b == nil {
+							return "nil body"
+						}
+						return fmt.Sprintf("%d extrinsics", len(*b))
+					}
+					body := NewBody(exts)
+					enc, err := scale.Marshal(*body)
+					res.Cmp()
+					if err != nil || !bytes.Equal(enc, want) {
+						g := vHex(enc)
+						if len(g) > 40 {
+							g = g[:40] + fmt.Sprintf("... (%d bytes)", len(enc))
+						}
+						fail("Marshal(Body)", fmt.Sprintf("%s... (%d bytes)", vHex(want[:min(len(want), 20)]), len(want)), g+fmt.Sprint(err), sig+"/encode")
+					}
+					res.Cmp()
+					if back, err := NewBodyFromBytes(want); err != nil || !same(back) {
+						fail("NewBodyFromBytes", fmt.Sprintf("%d extrinsics", v.N), show(back, err), sig+"/decode")
+					}
+					// the per-extrinsic encodings (block response, storage) and back
+					encExts, err := body.AsEncodedExtrinsics()
+					res.Cmp()
+					okEnc := err == nil && len(encExts) == v.N
+					for i := 0; okEnc && i < v.N; i++ {
+						okEnc = bytes.Equal(encExts[i], []byte{4, byte(v.Fill)})
+					}
+					if !okEnc {
+						fail("Body.AsEncodedExtrinsics", fmt.Sprintf("%d times 04%02x", v.N, v.Fill), fmt.Sprint(len(encExts), " ", err), sig+"/as-encoded-extrinsics")
+					} else {
+						res.Cmp()
+						if back, err := NewBodyFromEncodedBytes(ExtrinsicsArrayToBytesArray(encExts)); err != nil || !same(back) {
+							fail("NewBodyFromEncodedBytes", fmt.Sprintf("%d extrinsics", v.N), show(back, err), sig+"/from-encoded-bytes")
+						}
+					}
+					res.Cmp()
+					if back, err := NewBodyFromExtrinsicStrings(strs); err != nil || !same(back) {
+						fail("NewBodyFromExtrinsicStrings", fmt.Sprintf("%d extrinsics", v.N), show(back, err), sig+"/from-strings")
 					}
 				case "body":
 					res.Case("body", string(c.O.V))
